@@ -95,7 +95,9 @@ fn merge_from_client<T>(client: &T, server: &T) -> Result<T>
 	where
 		T: Debug + Clone + PartialEq,
 {
-	pretty_assertions::assert_eq!(client, server);
+	if client != server {
+		bail!("cannot merge not equal client {client:?} and server {server:?}, expected them to be equal");
+	}
 	Ok(client.clone())
 }
 
@@ -197,10 +199,7 @@ fn class_merger_merge(client: ClassFile, server: ClassFile) -> Result<ClassFile>
 				&server.inner_classes.unwrap_or_default(),
 				|inner_class| inner_class.inner_class.clone(),
 				|inner_class, _| Ok(inner_class.clone()),
-				|client, server| {
-					pretty_assertions::assert_eq!(client, server);
-					panic!();
-				}
+				|client, server| bail!("cannot merge not equal inner class entries of client {client:?} and server {server:?}"),
 			)?;
 			if inner_classes.is_empty() {
 				None
